@@ -40,9 +40,9 @@ type sliceProvider struct {
 }
 
 func (p *sliceProvider) GetToken(tid uint32) []byte { return p.toks[tid-p.first] }
-func (p *sliceProvider) FirstTID() uint32            { return p.first }
-func (p *sliceProvider) LastTID() uint32             { return p.first + uint32(len(p.toks)) - 1 }
-func (p *sliceProvider) Ordered() bool               { return p.ordered }
+func (p *sliceProvider) FirstTID() uint32           { return p.first }
+func (p *sliceProvider) LastTID() uint32            { return p.first + uint32(len(p.toks)) - 1 }
+func (p *sliceProvider) Ordered() bool              { return p.ordered }
 
 func literalOf(field, pat string) *parser.Literal {
 	l := &parser.Literal{Field: field}
